@@ -1,7 +1,7 @@
 SPECIFICATION Spec
 CONSTANTS
   Clusters = {101, 102}
-  Attrs = {0, 1, 2}
+  Attrs = {0, 1, 2, 3}
   TolMs = 50
   SlackMs = 2000
 POSTCONDITION TraceAccepted
